@@ -242,6 +242,8 @@ fn name(rng: &mut Rng, max: usize) -> Vec<u8> {
         }
         return s.into_bytes();
     }
+    // one name in eight carries control characters - NUL, tab, newline, escape, DEL: a name is any text, not a C string
+    if rng.chance(1, 8) { return (0..n).map(|_| if rng.chance(1, 3) { *rng.pick(&[0u8, 0, 9, 10, 27, 127, 1]) } else { b' ' + rng.below(95) as u8 }).collect(); }
     (0..n).map(|_| b' ' + rng.below(95) as u8).collect()
 }
 fn str16(v: &mut Vec<u8>, s: &[u8]) { v.extend((s.len() as u16).to_be_bytes()); v.extend(s); }
